@@ -110,4 +110,34 @@ example : verdict { hdr := 400, body := 400 } { th := none, tb := none } 10 = .t
 example : verdict { hdr := 400, body := 2000 } { th := some 5, tb := some 1000 } 10 = .served := by decide
 example : verdict { hdr := 400, body := 700 } { th := some 5, tb := some 1300 } 10 = .timedOut 2 := by decide
 
+/-! ### Several connections on one worker: each is judged on its own -/
+
+/-- T7: a connection is dropped by a scan exactly when ITS phase and ITS clock say so — whatever other connections the worker
+    has, wherever it stands among them. -/
+theorem scan_each (c : TCfg) (peers : List Peer) (p : Peer) :
+    p ∈ scan c peers ↔ p ∈ peers ∧ expired c p.phase p.elapsed = true := by
+  unfold scan; exact List.mem_filter
+
+/-- T7': the outcome does not depend on the order in which the container hands out the connections (it is an unordered map) -/
+theorem scan_order_irrelevant (c : TCfg) (a b : List Peer) (h : a.Perm b) : (scan c a).Perm (scan c b) := by
+  unfold scan; exact h.filter _
+
+/-- T7'': a stalled connection is dropped although busy connections share its worker; a busy one is not dropped because a
+    stalled one does -/
+theorem stalled_among_busy (c : TCfg) (pre post : List Peer) (p : Peer) (hp : expired c p.phase p.elapsed = true) :
+    p ∈ scan c (pre ++ p :: post) := by
+  rw [scan_each]; exact ⟨by simp, hp⟩
+
+theorem busy_among_stalled (c : TCfg) (peers : List Peer) (p : Peer) (hp : expired c p.phase p.elapsed = false) :
+    p ∉ scan c peers := by
+  rw [scan_each]; intro h; rw [hp] at h; cases h.2
+
+/-- the scan that stops at the first connection within its limits forgets the stalled connection behind it -/
+theorem scan_break_forgets :
+    let c : TCfg := { hdr := 1000, body := 1000 }
+    let busy : Peer := { id := 1, phase := .head, elapsed := 200 }
+    let stalled : Peer := { id := 2, phase := .head, elapsed := 1500 }
+    stalled ∈ scan c [busy, stalled] ∧ stalled ∉ scanBreak c [busy, stalled] ∧ stalled ∈ scanBreak c [stalled, busy] := by
+  decide
+
 end Pistache.Timeouts.Props
